@@ -151,13 +151,13 @@ EXPORT errno_t _wcstombs_s_chk(size_t *restrict retvalp, char *restrict dest,
         } else {
             if (unlikely(dmax > destbos || len > destbos)) {
                 if (unlikely(dmax > RSIZE_MAX_WSTR || len > RSIZE_MAX_WSTR)) {
-                    handle_error(dest, destbos,
+                    handle_error(dest, dmax < destbos ? dmax : destbos,
                                  "wcstombs_s"
                                  ": dmax/len exceeds max",
                                  ESLEMAX);
                     return RCNEGATE(ESLEMAX);
                 } else {
-                    handle_error(dest, destbos,
+                    handle_error(dest, dmax < destbos ? dmax : destbos,
                                  "wcstombs_s"
                                  ": dmax/len exceeds dest",
                                  EOVERFLOW);
